@@ -398,8 +398,9 @@ inductive Region where
   | F13
   /-- an item that fails while an earlier output of it exists: the stale output is kept -/
   | E
-  /-- outside the modelled protocol: an event path inside the output folder, a source path
-  that is also a directory, a queued output path that is a directory -/
+  /-- outside the modelled protocol: an event path inside the output folder, a Modify event
+  for a source that does not exist, a source path that is also a directory, a queued output
+  path that is a directory -/
   | X
   deriving DecidableEq, Repr
 
@@ -426,6 +427,7 @@ def staleAfter (P : Params) (last : Cfg) (st : State) (fs' : Fs) : Bool :=
 def regionOfWrite (P : Params) (last : Cfg) (st : State) (p : Path) (c : Content) (isAdd : Bool) :
     Option Region :=
   if startsWith p P.output then some .X
+  else if !isAdd && (alookup st.fs p).isNone && startsWith p P.input && P.isLua p then some .X
   else if (isAdd || (alookup st.fs p).isNone) && staleAfter P last st (ainsert st.fs p c)
   then some .F12 else none
 
@@ -437,9 +439,8 @@ def regionOfProcess (P : Params) (last : Cfg) (st : State) : Option Region :=
     if notDoneCount st1.nodes == 0 then (if st1.removeFiles.isEmpty then none else some .F11)
     else if st1.removeFiles.any (fun q => st1.nodes.any fun o =>
         match o with | some it => it.output == q | none => false) then some .F11b
-    else if st1.removeFiles.any (fun q => (alookup st1.fs q).isNone &&
-        (st1.fs.any (fun e => strictlyUnder e.1 q) || st1.nodes.any fun o =>
-          match o with | some it => strictlyUnder it.output q | none => false)) then some .X
+    else if st1.removeFiles.any (fun q => st1.nodes.any fun o =>
+        match o with | some it => strictlyUnder it.output q | none => false) then some .X
     else if st1.nodes.any (fun o => match o with
         | some it => !it.status.isDone && (P.T st1.cfg (alookup st1.fs) it.source).out.isNone
             && (alookup st1.fs it.output).isSome
